@@ -17,6 +17,32 @@ CLAIMS = {
         "Trusts the alias/in-place tables for numpy/sklearn calls; exception paths between save and restore are not modelled.",
         "DESIGN.md section 3 C03",
     ),
+    "C05": (
+        "interprocedural alias/ownership analysis: who may write constructor parameters, caller arrays and caller models",
+        "Decides the ownership clauses for all 32 pool query entities with callees inlined: no reachable store to / in-place "
+        "mutation of a constructor parameter (or an object aliased to it), no in-place writer applied to a value that may alias "
+        "an argument array (through validation helpers, views, slices), fit/partial_fit/set_params only on fresh clones. "
+        "All paths, all configurations; byte-wise equality and picklability in general are not decided.",
+        "Aliasing is under-approximated (unknown external calls return fresh objects); numpy/sklearn calls write their inputs only if listed in the in-place tables.",
+        "DESIGN.md section 3 C05",
+    ),
+    "C06": (
+        "RNG provenance analysis (taint over an interprocedural abstract interpretation with constant propagation) + syntactic scan for global draws",
+        "Decides the provenance clause: every random draw reachable from any public method of any estimator class or public helper "
+        "derives from self.random_state(_)/a random_state argument/a literal seed and never from numpy's global generator "
+        "(random_state=None or omitted on the call path, seedless external estimators), and pool queries do not consume a caller-supplied RandomState. "
+        "Bit-wise equality of outputs and determinism of third-party numerical code are not decided.",
+        "Table of external estimators that draw in fit; random_state=None chosen by the user is outside the premise.",
+        "DESIGN.md section 3 C06",
+    ),
+    "C13": (
+        "interprocedural alias/ownership analysis over every public method of every estimator class (class-wide heap)",
+        "Decides the parameters-are-never-rewritten clause: in every public method except __init__/set_params of all estimator classes, "
+        "no store to or in-place mutation of a constructor parameter, directly, through an alias created in another method, or in a callee. "
+        "Equality of a refitted object with a fresh clone as numbers is not decided.",
+        "Aliasing is under-approximated; constructor parameters = attributes stored by any __init__ along the MRO.",
+        "DESIGN.md section 3 C13",
+    ),
 }
 
 NOT_APPLICABLE = {
